@@ -481,7 +481,7 @@ def _interleave(r, scripts, cfg, seam_ops=SEAM_OPS, nest_ok=None):
                             n["nested"] = [{"at": 0, "steps": [queues[r.choice(deeper)].pop(0)]}]
                     nested.append(n)
                 if nested:
-                    s["nested"] = [{"at": r.choice([0, 0, 0, 1, 2]), "steps": nested}]
+                    s["nested"] = [{"at": r.choice([0, 0, 0, 1, 2]), "when": r.choice(["before", "before", "after"]), "steps": nested}]
         steps.append(s)
     return steps
 
